@@ -274,7 +274,7 @@ PROPS = {
                      "the session channel has room for the acknowledgement (otherwise the rp handler panics: C10, family flood)"],
     ),
     "C20": dict(
-        units=["http", "outbox"],
+        units=["http", "outbox", "sessions"],
         undecided=["the WebSocket transport (ws_ops::on_message pushes queued messages to the socket as they arrive: there is no reply vector to line up)",
                    "that start_http_client gives every request a fresh Client and channel and joins the entries with ';' (tiny_http glue, 4 lines)",
                    "messages other sessions send to this session's channel while the request runs (watch notices from concurrent writers): sequential semantics only",
